@@ -5,10 +5,10 @@ from rules import rolling, common
 
 CLAIMED = True
 TECHNIQUE = "static analysis over type-checked MIR: Once::call_once closure ownership of the only `true` assignment, comparison normal form, constant pre-process flag, caller inventory under the appender lock"
-LEVEL_TEXT = """Static, all-paths decision of: (O1) the value returned by OnStartUpTrigger::trigger starts false and its only assignment of true is inside the closure passed to Once::call_once on the trigger's own std::sync::Once field, which is created only by the constructor; (O2) inside that closure the assignment is control-dependent on len_estimate >= min_size (normal form) and nothing else; (O3) is_pre_process is const true, the pre-processing branch of the appender rolls before writing (C05.R2 premises re-evaluated), and the size it is shown is seeded from the metadata of the file just opened, 0 only where that open truncated (C06.Z3 premises re-evaluated); (O4) Trigger::trigger is reached only through CompoundPolicy::process, which is reached only from RollingFileAppender::append inside the writer lock's span, so simultaneous first appends are serialised. The resulting directory contents are decided under C05/C07 only structurally."""
+LEVEL_TEXT = """Static, all-paths decision of: (O1) the value returned by OnStartUpTrigger::trigger starts false and its only assignment of true is inside the closure passed to Once::call_once on the trigger's own std::sync::Once field, which is created only by the constructor; (O2) inside that closure the assignment is control-dependent on len_estimate >= min_size (normal form) and nothing else; (O3) is_pre_process is const true, the pre-processing branch of the appender rolls before writing (C05.R2 premises re-evaluated), and the size it is shown is seeded from the metadata of the file just opened, 0 only where that open truncated (C06.Z3 premises re-evaluated); (O4) Trigger::trigger is reached only through CompoundPolicy::process, which is reached only from RollingFileAppender::append inside the writer lock's span, so simultaneous first appends are serialised; (O5) CompoundPolicy::process carries out the rotation whenever the trigger answers true — roll() and the roller are guarded by nothing else, so the once-only request cannot be vetoed and lost. The resulting directory contents are decided under C05/C07 only structurally."""
 LEVEL_NOTE = "Trusted: rustc MIR/callee resolution; std::sync::Once runs the closure at most once and blocks concurrent callers; parking_lot mutual exclusion."
-EXPLANATION = """Decided: O1 at most once (Once closure owns the only true-assignment), O2 threshold >=, O3 pre-processing flag and ordering, O4 serialised under the appender lock. Undecided: resulting directory contents (C05/C07)."""
-DECIDED = ["O1 once-closure", "O2 len >= min_size", "O3 pre-process", "O4 serialised"]
+EXPLANATION = """Decided: O1 at most once (Once closure owns the only true-assignment), O2 threshold >=, O3 pre-processing flag and ordering, O4 serialised under the appender lock, O5 the requested rotation is never vetoed. Undecided: resulting directory contents (C05/C07)."""
+DECIDED = ["O1 once-closure", "O2 len >= min_size", "O3 pre-process", "O4 serialised", "O5 triggered => rolled"]
 UNDECIDED = ["directory outcome (see C05/C07)"]
 TRUSTED = ["rustc nightly MIR + Instance::try_resolve", "std::sync::Once", "parking_lot::Mutex"]
 
@@ -158,3 +158,5 @@ def run_cfg(ctx, p, cfg):
         pc = sorted({c.fn.path for c in p.all_calls(rolling.POLICY_PROCESS)})
         r.require(pc == [rolling.APPEND], "process-called-only-by-append", detail="callers of Policy::process: %s" % pc)
     rolling.rule_lock_span(ctx, p, cfg, "O4b")
+    if "compound_policy" in p.meta.get("features", []):
+        rolling.rule_policy_order(ctx, p, cfg, "O5")   # the one rotation the trigger asks for is carried out, unconditionally
